@@ -28,6 +28,7 @@ macro_rules! registry {
 registry! {
     c01::C01,
     c02::C02,
+    c03::C03,
     c05::C05,
     c06::C06,
     c07::C07,
